@@ -47,6 +47,22 @@ def insertSorted (x : Int) : List Int → List Int
   | y :: ys => if x ≤ y then x :: y :: ys else y :: insertSorted x ys
 def sorted (a : List Int) : List Int := a.foldr insertSorted []
 
+/-- `a[lo:hi]` and `a[lo:]` for non-negative bounds (Python clamps bounds beyond the end) -/
+def slice (a : List Int) (lo hi : Int) : List Int := (a.take hi.toNat).drop lo.toNat
+def dropFrom (a : List Int) (lo : Int) : List Int := a.drop lo.toNat
+
+/-- `np.argmax` (index of the first maximum) -/
+def argmaxAux : Int → Nat → Nat → List Int → Nat
+  | _, bi, _, [] => bi
+  | b, bi, i, x :: xs => if b < x then argmaxAux x i (i + 1) xs else argmaxAux b bi (i + 1) xs
+def argmax : List Int → Int
+  | [] => 0
+  | x :: xs => (argmaxAux x 0 1 xs : Nat)
+
+/-- `a[idx]` for an index array, and whether every index is in range -/
+def gather (a idx : List Int) : List Int := idx.map fun i => geti a i
+def allInb (a idx : List Int) : Bool := idx.all fun i => inb a i
+
 /-- truthiness of an integer (`while possible_steps:`) -/
 def truthy (x : Int) : Bool := x != 0
 
